@@ -111,6 +111,19 @@ CLAIMED = {
              "spec/idxkeys.smt2), finite-set counting axioms (spec/idxcount.smt2), Float64bits/BigEndian/Uvarint models (spec/ieee.smt2), "
              "proto round trip of kvindex.Doc; terms, fields and ids are NUL-free.",
         technique="contract-based deductive verification: WP/VC generation over go/ssa + SMT (z3/cvc5)"),
+    "C20": dict(
+        level="other",
+        text="Partial: at every call of the PostgreSQL driver (psql) and at the client-data call sites of the existing-SQL driver that "
+             "hands statement text to database/sql or sqlx, the text is proved to be built only from program constants and "
+             "identifier-safe table names (predicate sqlfixed, closed under concatenation), for all ids, labels and graph names; "
+             "client values travel as bound parameters. Sites where this does not hold are listed as known findings (batch IN-lists "
+             "in both drivers, identifier contexts of psql AddGraph, all client-data sites of existing-sql). Not decided: quoting "
+             "inside the database server, and the existing-sql sites that only use configured schema names.",
+        ref="§5 C20",
+        note=TRUST + " Assumed: fmt.Sprintf with a %s-only constant format = concatenation; table names stored in the psql graphs table "
+             "are identifier-safe (representation invariant, extern getGraphInfo@psql); database/sql and sqlx calls other than the "
+             "Scan family do not touch modelled state.",
+        technique="contract-based deductive verification: call-site obligations generated over go/ssa + SMT (z3/cvc5)"),
 }
 
 NOT_APPLICABLE = {
